@@ -299,6 +299,13 @@ func (w *World) ap(v ssa.Value, depth int) string {
 	case *ssa.MakeClosure:
 		return "closure(" + FuncName(x.Fn.(*ssa.Function)) + ")"
 	case *ssa.Slice:
+		if el := w.variadicElems(x); el != nil {
+			var parts []string
+			for _, e := range el {
+				parts = append(parts, w.ap(e, depth+1))
+			}
+			return "[" + strings.Join(parts, ",") + "]"
+		}
 		lo, hi, mx := "", "", ""
 		if x.Low != nil {
 			lo = w.ap(x.Low, depth+1)
